@@ -7,6 +7,7 @@ from .common import TOL
 
 PROPERTY = "C04"
 LEVEL = "exploration"
+SUPPORTS_V4 = True  # scenarios with "v4": true run over IPv4-mapped addresses (see common.set_family)
 RUNS = {"quick": 3500, "thorough": 50000}
 RULE = ("seeded scenarios: 1-3 scripted clients (sharing a small pool of message IDs) send CON/NON requests to a "
         "real server with fast / slow (separate response) / raising / response-suppressed handlers; copies of each "
@@ -63,7 +64,7 @@ def gen(r, tier):
         for _ in range(r.randint(1, 2)):
             icmps.append({"t": round(r.uniform(0, 4), 4) if r.chance(0.7) else round(r.uniform(4, 260), 3),
                           "client": r.randrange(nclients)})
-    return {"nclients": nclients, "reqs": reqs, "icmps": icmps, "same_host": r.chance(0.3)}
+    return {"nclients": nclients, "reqs": reqs, "icmps": icmps, "same_host": r.chance(0.3), "v4": r.chance(0.15)}
 
 
 def systematic(tier):
